@@ -98,6 +98,93 @@ theorem discover_counts (txns : List CTxn) :
       rw [ih, sumCounts_upsert t.raw (absI t.amount) m, List.length_cons]; omega
   simpa [sumCounts] using this []
 
+/-! ### the listing is computed transaction by transaction
+
+`Pipeline.discoverG` is the function the driver runs for `tally discover` (over IEEE doubles); over exact cents it is
+the `discover` of the theorems above, so they are statements about the modelled command. -/
+
+def toD (t : CTxn) : DTxn Int := (t.raw, t.category, t.amount)
+
+theorem discoverG_eq_discover (txns : List CTxn) : discoverG intNum (txns.map toD) = discover txns := by
+  unfold discoverG discover accumFrom
+  rw [List.filter_map, List.foldl_map]
+  rfl
+
+/-- `discover` on a statement classified row by row (every row with ITS date, source, location and captured
+columns — `classify` is any function of the whole row): a description is listed exactly when some row carrying it
+is left Unknown, with the number of those rows and the sum of their |amount|.  In particular two rows with the
+same text and amount are counted separately, each under its own classification. -/
+theorem discover_row_by_row {ρ : Type} (classify : ρ → String) (raw : ρ → String) (cents : ρ → Int) (rows : List ρ) (d : String) :
+    (discoverG intNum (rows.map fun r => (raw r, classify r, cents r))).lookup d =
+      let us := rows.filter (fun r => classify r == "Unknown" && raw r == d)
+      if us.isEmpty then none else some (us.length, sumBy (fun r => absI (cents r)) us) := by
+  have h := discover_eq_unknown (rows.map fun r => (⟨raw r, classify r, cents r⟩ : CTxn)) d
+  rw [← discoverG_eq_discover, List.map_map] at h
+  have hm : (toD ∘ fun r => (⟨raw r, classify r, cents r⟩ : CTxn)) = fun r => (raw r, classify r, cents r) := rfl
+  rw [hm] at h
+  rw [h]
+  simp only [List.filter_map, List.isEmpty_map, List.length_map]
+  have hs : ∀ l : List ρ, sumBy (fun t : CTxn => absI t.amount) (l.map fun r => (⟨raw r, classify r, cents r⟩ : CTxn)) =
+      sumBy (fun r => absI (cents r)) l := by
+    intro l; unfold sumBy; rw [List.foldl_map]
+  rw [hs]
+  rfl
+
+/-! ### what the classification depends on (why no shortcut over "the statement line" or "the rules' text" is sound)
+
+Kernel-checked witnesses on the engine model (`Engine.matchTxn` = `MerchantEngine.match`, the function `up`,
+`discover` and `explain` all go through).  The same two situations are generated at random by the check and run
+through the three commands. -/
+
+def noOracles : Oracles := ⟨fun _ => none, fun _ => none, fun _ _ => none, fun _ _ => none, fun _ _ _ => none,
+  fun _ _ => none, fun _ => none, fun _ => none, fun _ _ => none, fun _ _ => none⟩
+def key0 : Rule → Key := fun r => ⟨r.priority, 0, 0, 0⟩
+
+/-- `[Weekend Parking]  match: weekday >= 5  category: Parking` -/
+def weekendRule : RuleX :=
+  { rule := ⟨1, "Weekend Parking", "Weekend Parking", "Parking", "", 50, "weekday >= 5"⟩, lets := [],
+    matchE := some (.cmp (.name "weekday") [.mk .ge (.const (.int 5))]), tags := [], fields := [] }
+
+/-- one statement line (same source, text, amount, location, captured columns) on a given date -/
+def parkingOn (d : Date) : Ctx := ⟨"CITY PARKING GARAGE 12", .int 12, some d, "Src0", "", none, [], [], []⟩
+
+/-- The classification of a transaction depends on its DATE: the same statement line is categorised on Saturday
+2025-01-04 and left Unknown on Monday 2025-01-06. -/
+theorem classification_depends_on_date :
+    resultTag (matchTxn true true key0 noOracles (parkingOn ⟨2025, 1, 4⟩) .firstMatch [] [weekendRule]) = "Weekend Parking|Parking||" ∧
+    resultTag (matchTxn true true key0 noOracles (parkingOn ⟨2025, 1, 6⟩) .firstMatch [] [weekendRule]) = "|||" := by
+  decide +kernel
+
+/-- Hence no memo of the classification whose key ignores the date agrees with `up`: for every such key there are
+rules and two transactions with the same key and different classifications. -/
+theorem no_sound_memo_without_date {κ : Type} (k : Ctx → κ) (hk : ∀ (c : Ctx) (d : Option Date), k { c with date := d } = k c) :
+    ∃ (rules : List RuleX) (c₁ c₂ : Ctx), k c₁ = k c₂ ∧
+      resultTag (matchTxn true true key0 noOracles c₁ .firstMatch [] rules) ≠
+      resultTag (matchTxn true true key0 noOracles c₂ .firstMatch [] rules) := by
+  refine ⟨[weekendRule], parkingOn ⟨2025, 1, 4⟩, parkingOn ⟨2025, 1, 6⟩, ?_, ?_⟩
+  · have h := hk (parkingOn ⟨2025, 1, 4⟩) (some ⟨2025, 1, 6⟩)
+    exact h.symm
+  · rw [classification_depends_on_date.1, classification_depends_on_date.2]; decide
+
+/-- `has_order = any(r.amount == amount for r in orders)` as a TOP-LEVEL variable and
+`[Ordered]  match: has_order  category: Orders`: no rule expression names the supplemental source -/
+def hasOrder : String × PExpr :=
+  ("has_order", some (.callNameGen "any" (.cmp (.attrName "r" "amount") [.mk .eq (.name "amount")])
+                        [.mk (some "r") (.name "orders") []] []))
+def orderedRule : RuleX :=
+  { rule := ⟨3, "Ordered", "Ordered", "Orders", "", 50, "has_order"⟩, lets := [],
+    matchE := some (.name "has_order"), tags := [], fields := [] }
+def chargeWith (sources : List (String × Val)) : Ctx := ⟨"AMAZON MKTPL", .int 1599, none, "", "", none, [], sources, []⟩
+def orderRows : List (String × Val) := [("orders", .list [.row [("item", .str "Book"), ("amount", .int 1599)]])]
+
+/-- The classification depends on the rows of a supplemental source that is named ONLY in a top-level variable:
+with the rows the rule applies, without them the variable cannot be evaluated and the transaction stays Unknown.
+(A command that decides from the rules' own expressions whether to read the supplemental files is wrong.) -/
+theorem classification_depends_on_source_named_in_variable :
+    resultTag (matchTxn true true key0 noOracles (chargeWith orderRows) .firstMatch [hasOrder] [orderedRule]) = "Ordered|Orders||" ∧
+    resultTag (matchTxn true true key0 noOracles (chargeWith []) .firstMatch [hasOrder] [orderedRule]) = "|||" := by
+  decide +kernel
+
 /-! non-vacuity -/
 def ex : List CTxn := [⟨"UBER TRIP", "Transport", 1200⟩, ⟨"NEW SHOP 1", "Unknown", 500⟩, ⟨"NEW SHOP 1", "Unknown", -250⟩,
   ⟨"OTHER", "Unknown", 100⟩, ⟨"NEW SHOP 1", "Food", 900⟩]
